@@ -108,6 +108,20 @@ def r17_4(ctx):
             firsts += [1 for bi, t, cal in f.calls() if cal and cal.name == "next" and cal.def_trait == "std::iter::Iterator" and isinstance(t.get("s"), int)
                        and cal.adt in ("std::vec::IntoIter", "std::slice::Iter")]
             r.ob("priority:first-after-sort:%s" % f.name, len(firsts) == 1, f.site, "the selected route is the first element of the sorted list")
+        # get_trace assembles its answer from the traces alone: the routes it lists, sorts and selects
+        # from are those found in the traces, it does not query the router a second way
+        allowed = {LY.ROUTER + "::trace_request", "router::trace::Trace::get_routes_from_traces", "router::route::Route::priority", "router::trace::RouteTrace::new"}
+        others = set()
+        for bi, t, cal in b.calls():
+            if cal is not None and cal.local and not cal.closure and cal.key() not in allowed and cal.trait is None and cal.adt != "router::route::Route":
+                others.add(cal.key())
+        for c in b.all_bodies():
+            if c is b:
+                continue
+            for bi, t, cal in c.calls():
+                if cal is not None and cal.local and not cal.closure and cal.key() not in allowed and cal.trait is None and cal.adt != "router::route::Route":
+                    others.add(cal.key())
+        r.ob("trace:get_trace:routes-come-from-the-traces", not others, b.site, "get_trace calls no other local function than trace_request / get_routes_from_traces / RouteTrace::new / accessors of Route: %s" % sorted(others))
         # trace_request normalises the request before tracing
         g = F.method(LY.ROUTER, "trace_request")
         r.analysed(g)
@@ -136,7 +150,7 @@ def r17_4(ctx):
                         rets = {p.end[1] for p in Sym(w, copies=True).paths() if p.end[0] == "ret"}
                         ok = len(rets) == 1 and all(is_rebuild(e, ("param", w.argc)) for e in rets)
         r.ob("trace:normalised-request", ok and all_paths_ok and n_tr >= 1, g.site, "matcher.trace receives rebuild_with_config(config, request) on every path")
-    ctx.run_rule("R17.4", "same priority key in get_route and get_trace; trace runs on the normalised request", body, floor=5)
+    ctx.run_rule("R17.4", "same priority key in get_route and get_trace; trace runs on the normalised request", body, floor=6)
 
 
 def r17_5(ctx):
